@@ -370,6 +370,19 @@ func check(c Case, st *core.Stats) error {
 				return fmt.Errorf("Modf(%v) into %v: frac = %s, want %sE%d (|frac| < 1, sign of d)", c.X, c.Dirty, core.Show(frac), wantF, fe)
 			}
 		}
+		// the parts own their storage: in-place arithmetic on them must not reach d
+		core.Guard(st, func() {
+			for _, part := range []*apd.Decimal{integ, frac} {
+				if part != nil {
+					part.Coeff.Add(&part.Coeff, apd.NewBigInt(1))
+					part.Coeff.Neg(&part.Coeff)
+					part.Coeff.Lsh(&part.Coeff, 1)
+				}
+			}
+		})
+		if !core.SameFields(d, c.X.Apd()) {
+			return fmt.Errorf("Modf(%v): in-place arithmetic on the returned parts changed the receiver to %s", c.X, core.Show(d))
+		}
 	}
 	return nil
 }
